@@ -517,6 +517,16 @@ def run(ck):
         hc.remove_cutoff_coupling(0.005)
 
     libs += [("CorrelationFunction copy/+/+= (underdamped, B777)", lib_cf_kinds), ("Hamiltonian.remove_cutoff_coupling", lib_cutoff)]
+
+    def lib_build_refused():
+        # a build that is refused half way (an exciton multiplicity that is not a number); the caller catches the refusal and goes on
+        a = Aggregate([Molecule([0.0, 1.0]), Molecule([0.0, 1.1])])
+        try:
+            a.build(mult="two")
+        except Exception:
+            pass
+
+    libs += [("Aggregate.build (refused)", lib_build_refused)]
     libs += [("Aggregate.build", lib_build), ("Aggregate.build(mult=2)", lib_build_mult2), ("get_RelaxationTensor", lib_relax),
             ("get_RelaxationTensor(time_dependent)", lib_relax_td), ("get_Hamiltonian.data", lib_ham), ("CorrelationFunction+", lib_cf),
             ("TimeAxis.get_FrequencyAxis", lib_faxis), ("convert", lib_convert), ("AbsSpectrumCalculator.calculate", lib_abs),
